@@ -611,8 +611,77 @@ theorem applyCmd_loc_other (s : St) (c : Cmd) (e : Nat) (h : ¬ touchesLocal e c
   | entityEvent e' ty' pid => simp only [applyCmd]; split <;> eclose
   | _ => simp only [applyCmd] <;> (try split) <;> eclose
 
+/-! The scripted body of an entity world reactor writes the local data of the entity that caused the run (`EntityLocal::get_mut`,
+`bumpLocal`): the one other way local data moves. -/
+
+theorem readLocal_congr {s s' : St} (h1 : s'.trkEnt = s.trkEnt) (h2 : s'.ewrSys = s.ewrSys) (h3 : s'.ewLocal = s.ewLocal) (wr : Nat) :
+    readLocal s' wr = readLocal s wr := by
+  simp only [readLocal, h1, h2, h3]
+
+theorem bumpLocal_ewLocal_other (s : St) (w : Option Nat) (e : Nat)
+    (h : ∀ wr v, w = some wr → readLocal s wr ≠ some (e, v)) : (bumpLocal s w).ewLocal e = s.ewLocal e := by
+  unfold bumpLocal
+  cases w with
+  | none => rfl
+  | some wr =>
+    dsimp only
+    cases hr : readLocal s wr with
+    | none => rfl
+    | some ev =>
+      obtain ⟨e', v⟩ := ev
+      have hne : e ≠ e' := by
+        intro he; subst he; exact h wr v rfl hr
+      simp [upd, hne]
+
+/-- The entity whose local data a run started by this lookup writes, if any. -/
+def runBumps (s : St) (sys : Nat) (k : Kind) : Option Nat :=
+  match ewrOf s sys with
+  | some wr => (readLocal (setupK s k sys) wr).map (·.1)
+  | none => none
+
+theorem setupK_trkEnt_congr {s s' : St} (h : s'.trkEnt = s.trkEnt) (h2 : s'.trkDsp = s.trkDsp) (k : Kind) (sys : Nat) :
+    (setupK s' k sys).trkEnt = (setupK s k sys).trkEnt := by
+  cases k <;> simp only [setupK, h]
+  case dspReact src hd => rw [h2]; split <;> simp [h]
+
+theorem observe_ewLocal_other (s : St) (w : Option Nat) (e : Nat)
+    (h : ∀ wr v, w = some wr → readLocal s wr ≠ some (e, v)) : (observe s w).2.ewLocal e = s.ewLocal e := by
+  unfold observe
+  dsimp only
+  rw [bumpLocal_ewLocal_other]
+  · split
+    · split <;> rfl
+    · rfl
+  · intro wr v hw
+    rw [readLocal_congr (s := s)]
+    · exact h wr v hw
+    all_goals (split <;> (try split) <;> rfl)
+
+theorem startBody_ewLocal_other (s : St) (sys : Nat) (k : Kind) (e : Nat) (h : runBumps s sys k ≠ some e) :
+    (startBody s sys k).ewLocal e = s.ewLocal e := by
+  have hfold : ∀ (l : List Nat) (t : St), (l.foldl (fun (s : St) pid => s.emit (Ev.dropPayload pid)) t).ewLocal = t.ewLocal := by
+    intro l; induction l with
+    | nil => intro t; rfl
+    | cons x l ih => intro t; exact (ih _).trans rfl
+  unfold startBody
+  dsimp only
+  rw [hfold]
+  show (observe (preBody s sys k) (ewrOf (preBody s sys k) sys)).2.ewLocal e = _
+  rw [observe_ewLocal_other]
+  · simp
+  · intro wr v hw hr
+    apply h
+    have hw' : ewrOf s sys = some wr := by
+      rw [← hw]; simp [ewrOf]
+    have ht : (preBody s sys k).trkEnt = (setupK s k sys).trkEnt := by
+      unfold preBody; dsimp only; split <;> rfl
+    have hr' : readLocal (setupK s k sys) wr = some (e, v) := by
+      rw [← hr]; exact (readLocal_congr ht (by simp) (by simp) wr).symm
+    simp [runBumps, hw', hr']
+
 theorem runFrame_loc (p : Prog) (hh : Hist) (s : St) (f : Frame) (e : Nat)
-    (h : ∀ c cs, f = .batch (c :: cs) → ¬ touchesLocal e c) : LocStep e s (runFrame p hh s f) := by
+    (h : ∀ c cs, f = .batch (c :: cs) → ¬ touchesLocal e c)
+    (hrun : ∀ sys k idx, f = .runnerLookup sys k idx → runBumps s sys k ≠ some e) : LocStep e s (runFrame p hh s f) := by
   cases f with
   | batch cs =>
     cases cs with
@@ -631,8 +700,22 @@ theorem runFrame_loc (p : Prog) (hh : Hist) (s : St) (f : Frame) (e : Nat)
   | dropCallback sys => exact Or.inl rfl
   | runnerStart sys k => exact Or.inl rfl
   | runnerLookup sys k idx =>
+    have hb : ∀ s1 : St, s1.trkEnt = s.trkEnt → s1.trkDsp = s.trkDsp → s1.ewrSys = s.ewrSys → s1.ewLocal = s.ewLocal →
+        (startBody s1 sys k).ewLocal e = s.ewLocal e := by
+      intro s1 h1 h1d h2 h3
+      rw [startBody_ewLocal_other, h3]
+      have : runBumps s1 sys k = runBumps s sys k := by
+        have he : ewrOf s1 sys = ewrOf s sys := by simp [ewrOf, h2]
+        simp only [runBumps, he]
+        split
+        · rename_i wr _
+          rw [readLocal_congr (setupK_trkEnt_congr h1 h1d k sys) (by simp [h2]) (by simp [h3]) wr]
+        · rfl
+      rw [this]; exact hrun sys k idx rfl
     simp only [runFrame, doRunnerLookup]
-    (repeat' split) <;> exact Or.inl (by simp [St.push, St.emit])
+    (repeat' split) <;> refine Or.inl ?_ <;> first
+      | (simp [St.push, St.emit]; done)
+      | (simp only [St.push]; exact hb _ rfl rfl rfl rfl)
   | afterBody sys idx => exact Or.inl rfl
   | reinsert sys idx => simp only [runFrame, doReinsert]; (repeat' split) <;> eclose
   | replayTake sys idx => exact Or.inl rfl
@@ -664,10 +747,16 @@ theorem startTop_loc (s : St) (t : Nat) (op : TopOp) (e : Nat) : LocStep e s (st
   case wEntityEvent x ty pid => exact LocStep.pre (s1 := (s.emit (.top t)).emit (.send pid)) rfl rfl (applyCmd_loc_other _ _ e (by simp [touchesLocal]))
   all_goals (try split) <;> exact Or.inl (by first | rfl | (simp [St.push, St.emit]; done))
 
-/-- **Entity-world-reactor local data moves only by the reactor's own add / remove commands on that entity, or the
-    entity's death.** -/
+/-- The next step is the lookup that starts a run of an entity world reactor caused by `e`: the scripted body writes `e`'s
+    local data (`EntityLocal::get_mut`). -/
+def startsRunFor (e : Nat) (s : St) : Prop :=
+  ∃ sys k idx rest, s.stack = .runnerLookup sys k idx :: rest ∧ runBumps ({ s with stack := rest } : St) sys k = some e
+
+/-- **Entity-world-reactor local data moves only by the reactor's own add / remove commands on that entity, by a run of the
+    reactor caused by that entity, or by the entity's death.** -/
 theorem local_stable {p : Prog} {hh : Hist} {s s' : St} (ht : tick p hh s = some s') (e : Nat) :
-    s'.ewLocal e = s.ewLocal e ∨ (s.alive e = true ∧ s'.alive e = false) ∨ ∃ c, nextCmd s = some c ∧ touchesLocal e c := by
+    s'.ewLocal e = s.ewLocal e ∨ (s.alive e = true ∧ s'.alive e = false) ∨ (∃ c, nextCmd s = some c ∧ touchesLocal e c) ∨
+    startsRunFor e s := by
   unfold tick at ht
   split at ht
   · rename_i s'' hs
@@ -680,10 +769,14 @@ theorem local_stable {p : Prog} {hh : Hist} {s s' : St} (ht : tick p hh s = some
       simp only [Option.some.injEq] at hs; subst hs
       by_cases hq : ∃ c cs, f = .batch (c :: cs) ∧ touchesLocal e c
       · obtain ⟨c, cs, rfl, hc⟩ := hq
-        exact Or.inr (Or.inr ⟨c, by simp [nextCmd, hst], hc⟩)
-      · rcases runFrame_loc p hh ({ s with stack := rest } : St) f e (fun c cs hf hc => hq ⟨c, cs, hf, hc⟩) with h | h
-        · exact Or.inl h
-        · exact Or.inr (Or.inl h)
+        exact Or.inr (Or.inr (Or.inl ⟨c, by simp [nextCmd, hst], hc⟩))
+      · by_cases hb : ∃ sys k idx, f = .runnerLookup sys k idx ∧ runBumps ({ s with stack := rest } : St) sys k = some e
+        · obtain ⟨sys, k, idx, rfl, hbe⟩ := hb
+          exact Or.inr (Or.inr (Or.inr ⟨sys, k, idx, rest, hst, hbe⟩))
+        · rcases runFrame_loc p hh ({ s with stack := rest } : St) f e (fun c cs hf hc => hq ⟨c, cs, hf, hc⟩)
+              (fun sys k idx hf hbe => hb ⟨sys, k, idx, hf, hbe⟩) with h | h
+          · exact Or.inl h
+          · exact Or.inr (Or.inl h)
   · split at ht
     · simp only [Option.some.injEq] at ht; subst ht
       rcases startTop_loc ({ s with topIdx := s.topIdx + 1 } : St) s.topIdx _ e with h | h
@@ -692,8 +785,8 @@ theorem local_stable {p : Prog} {hh : Hist} {s s' : St} (ht : tick p hh s = some
     · cases ht
 
 theorem local_stable_run {p : Prog} {hh : Hist} (e : Nat) {s s' : St}
-    (h : QuietRun p hh (fun x => (∃ c, nextCmd x = some c ∧ touchesLocal e c) ∨ x.alive e = false) s s') (halive : s'.alive e = true) :
-    s'.ewLocal e = s.ewLocal e := by
+    (h : QuietRun p hh (fun x => ((∃ c, nextCmd x = some c ∧ touchesLocal e c) ∨ startsRunFor e x) ∨ x.alive e = false) s s')
+    (halive : s'.alive e = true) : s'.ewLocal e = s.ewLocal e := by
   induction h with
   | refl => rfl
   | @tick s1 s2 _ hq ht ih =>
@@ -701,9 +794,10 @@ theorem local_stable_run {p : Prog} {hh : Hist} (e : Nat) {s s' : St}
       cases h : s1.alive e with
       | true => rfl
       | false => exact absurd (Or.inr h) hq
-    rcases local_stable ht e with h1 | h1 | h1
+    rcases local_stable ht e with h1 | h1 | h1 | h1
     · rw [h1]; exact ih ha1
     · rw [h1.2] at halive; cases halive
-    · exact absurd (Or.inl h1) hq
+    · exact absurd (Or.inl (Or.inl h1)) hq
+    · exact absurd (Or.inl (Or.inr h1)) hq
 
 end Cobweb
